@@ -155,6 +155,13 @@ def main():
     texts += F.f_rule_chains(ops, depth=3)
     texts += F.f_rule_pairs(both, consts=[0, 1, F.MASK], contexts=("stack",))
     texts += F.f_exh(2 if tier == "quick" else 3)
+    texts += F.f_mem((3,), deltas=[0], ops=("SSTORE", "SLOAD", "MSTORE", "MLOAD"), mixed=True)
+    # a load after a store of its own space whose value is then stored in the other space
+    for st, ld, other in (("SSTORE", "SLOAD", "MSTORE"), ("MSTORE", "MLOAD", "SSTORE"), ("SSTORE", "SLOAD", "MSTORE8")):
+        for k1 in ("DUP2", "PUSH 5", "DUP3"):
+            for k2 in ("DUP2", "PUSH 5", "PUSH 6", "DUP1"):
+                for k3 in ("DUP3", "PUSH 40", "DUP1"):
+                    texts.append("DUP3 %s %s %s %s %s %s" % (k1, st, k2, ld, k3, other))
     if tier == "thorough":
         texts += F.f_mem((3,), deltas=[0, 1, 32], ops=("MSTORE", "MLOAD", "MSTORE8", "KECCAK256"))
         texts += F.f_mem((4,), deltas=[0, 16], ops=("MSTORE", "MLOAD"))
@@ -195,6 +202,9 @@ def main():
                     samples.append({"origin": rec["origin"], "ids": rec["ids"], "semantic": rec.get("semantic")})
             if v in ("not-realizing", "semantically-different", "asm-raised"):
                 key = "%s:%s" % (v, rec["origin"] if rec["origin"] != "hand" else "hand:" + spec_key(rec["spec"]))
+                cls = classify(rec)
+                if cls:
+                    key = cls
                 rep.violation(key, "greedy reports success with ids %s: %s" % (rec.get("ids"), rec["why"]),
                               {"options": o, "origin": rec["origin"], "spec": rec.get("spec"), "ids": rec.get("ids")})
             if v == "harness-error":
@@ -212,6 +222,36 @@ def main():
     }
     rep.assumptions = ["offsets/lengths < 2^32"]
     sys.exit(rep.finish())
+
+
+def classify(rec):
+    """mechanism-level identity for the one recorded greedy defect: a load that a store of the *same* space must precede
+    is emitted before that store when its value feeds a store of the *other* space (memory vs storage orders are merged
+    separately)"""
+    import re
+    m = re.match(r"ordering constraint ((?:S|M)STORE8?_\d+) before ((?:S|M)LOAD|KECCAK256)_\d+ is not respected", rec.get("why", ""))
+    spec = rec.get("spec")
+    if not m or not spec:
+        return None
+    store_id = m.group(1)
+    load_id = re.search(r"before (\w+_\d+) is", rec["why"]).group(1)
+    by_id = {i["id"]: i for i in spec["user_instrs"]}
+    if store_id not in by_id or load_id not in by_id:
+        return None
+    space = "S" if store_id.startswith("S") else "M"
+    out = by_id[load_id]["outpt_sk"][0] if by_id[load_id]["outpt_sk"] else None
+    # does the load's value (transitively) feed a store of the other space?
+    users, frontier = set(), {out}
+    while frontier:
+        v = frontier.pop()
+        for i in spec["user_instrs"]:
+            if v in i["inpt_sk"] and i["id"] not in users:
+                users.add(i["id"])
+                frontier.update(i["outpt_sk"])
+    other = [u for u in users if by_id[u].get("storage") and not u.startswith(space)]
+    if other:
+        return "greedy:load-before-its-store-when-feeding-a-store-of-the-other-space"
+    return None
 
 
 def spec_key(spec):
